@@ -19,7 +19,9 @@
 #include "vrt.h"
 
 #define VH_NOINSTR __attribute__((no_sanitize_thread))
+#ifndef VH_MAXF
 #define VH_MAXF 16
+#endif
 #define VH_MAXOPS 256
 typedef struct vh_script {
   int nfibers;
